@@ -128,17 +128,35 @@ func ZipHazards() []ZipHazard {
 		{Name: "meta-inf-file-with-sig-extension", Only: "jar", Apply: func(a *ZArchive) {
 			addMember(a, ZMember{Name: "META-INF/NOTES.SIG", Data: []byte("not a signature: JAR spec reserves SIG-* names, not *.SIG\n")})
 		}},
-		{Name: "manifest-lf", Only: "jar", Apply: func(a *ZArchive) { a.Members[0].Data = []byte(JarManifest("\n")) }},
-		{Name: "manifest-cr", Only: "jar", Apply: func(a *ZArchive) { a.Members[0].Data = []byte(JarManifest("\r")) }},
+		{Name: "manifest-lf", Only: "jar", Apply: func(a *ZArchive) { a.Members[manifestIndex(a)].Data = []byte(JarManifest("\n")) }},
+		{Name: "manifest-cr", Only: "jar", Apply: func(a *ZArchive) { a.Members[manifestIndex(a)].Data = []byte(JarManifest("\r")) }},
 		{Name: "manifest-without-final-newline", Only: "jar", Apply: func(a *ZArchive) {
-			a.Members[0].Data = []byte(strings.TrimRight(JarManifest("\r\n"), "\r\n"))
+			a.Members[manifestIndex(a)].Data = []byte(strings.TrimRight(JarManifest("\r\n"), "\r\n"))
 		}},
-		{Name: "manifest-deflated", Only: "jar", Apply: func(a *ZArchive) { a.Members[0].Deflate = true }},
+		{Name: "manifest-deflated", Only: "jar", Apply: func(a *ZArchive) { a.Members[manifestIndex(a)].Deflate = true }},
 		{Name: "manifest-not-first", Only: "jar", Apply: func(a *ZArchive) {
-			a.Members = append(a.Members[1:], a.Members[0])
+			i := manifestIndex(a)
+			m := a.Members[i]
+			a.Members = append(append(append([]ZMember(nil), a.Members[:i]...), a.Members[i+1:]...), m)
 		}},
 		{Name: "manifest-entry-for-absent-file", Only: "jar", Apply: func(a *ZArchive) {
-			a.Members[0].Data = append(a.Members[0].Data, []byte("Name: gone.txt\r\nX-Note: kept\r\n\r\n")...)
+			// same line-end style as the rest of the manifest
+			i := manifestIndex(a)
+			eol := "\r\n"
+			switch d := string(a.Members[i].Data); {
+			case strings.Contains(d, "\r\n"):
+			case strings.Contains(d, "\n"):
+				eol = "\n"
+			case strings.Contains(d, "\r"):
+				eol = "\r"
+			}
+			d := strings.TrimRight(string(a.Members[i].Data), "\r\n") + eol + eol
+			a.Members[i].Data = []byte(d + "Name: gone.txt" + eol + "X-Note: kept" + eol + eol)
+		}},
+		{Name: "manifest-mixed-line-ends", Only: "jar", Apply: func(a *ZArchive) {
+			// JAR spec: newline = CR LF | LF | CR, chosen per line. Main section LF, per-entry section CR LF.
+			i := manifestIndex(a)
+			a.Members[i].Data = []byte("Manifest-Version: 1.0\nCreated-By: verif\n\nName: hello.txt\r\nContent-Type: text/plain\r\n\r\n")
 		}},
 		// VSIX / OPC-specific
 		{Name: "existing-root-relationships", Only: "vsix", Apply: func(a *ZArchive) {
@@ -152,6 +170,15 @@ func ZipHazards() []ZipHazard {
 			a.Members = append([]ZMember{a.Members[n-1]}, a.Members[:n-1]...)
 		}},
 	}
+}
+
+func manifestIndex(a *ZArchive) int {
+	for i, m := range a.Members {
+		if m.Name == "META-INF/MANIFEST.MF" {
+			return i
+		}
+	}
+	return 0
 }
 
 // AppliesTo reports whether the hazard is enumerated for the type.
